@@ -495,7 +495,15 @@ def main_check(P, argv):
         thm_ok, theorems, praw = coq_properties(prop)
     if not ok_mk or not thm_ok:
         m = re.findall(r'File "\./([\w/]+\.v)", line (\d+)', mk_out + praw)
-        broken.append(("theorem", "Coq build failed: %s\n%s" % (m[:3], (mk_out + praw)[-2500:])))
+        named = []
+        for fn, ln in m[:3]:      # the lemma / theorem whose proof no longer checks
+            try:
+                head = open(os.path.join(COQ, fn)).read().split("\n")[:int(ln)]
+                nm = re.findall(r"^\s*(?:Lemma|Theorem|Corollary|Example|Definition|Fixpoint)\s+([\w']+)", "\n".join(head), flags=re.M)
+                named.append("%s:%s (%s)" % (fn, ln, nm[-1] if nm else "?"))
+            except Exception:
+                named.append("%s:%s" % (fn, ln))
+        broken.append(("theorem", "Coq build failed at %s\n%s" % (named, (mk_out + praw)[-2500:])))
     n_dis, axioms = discharged(theorems)
     cov = ev["coverage"]
     cov["obligations"] = len(theorems)
